@@ -134,6 +134,15 @@ def run(tier, seed):
                 sid = [1, 0, 0, 0] if same else [cyc + 1, cyc, 0, 0]
                 steps += [{"kind": "DemandActive", "shareId": sid, "capv": capv}] + HAPPY[1:5] + [bmp, {"kind": "DeactivateAll"}]
             plans.append({"id": "cycles%d" % k, "steps": with_inputs(steps, 1)})
+        # every pduType2 value a data PDU can carry (the four the automaton knows excepted), in every state: all of them are
+        # "unknown data PDU" - none advances the handshake, none opens or closes the window
+        for st in range(6):
+            for t2 in range(256):
+                if t2 in (31, 20, 40, 47):
+                    continue
+                if tier == "quick" and st not in (4, 5) and t2 % 3:
+                    continue
+                plans.append({"id": "t2-%d-%d" % (st, t2), "steps": with_inputs(HAPPY[:st] + [{"kind": "UnknownData", "t2": t2}] + HAPPY[st:6], 1)})
         pp = os.path.join(wd, "plans.ndjson")
         activation.write_plans(pp, plans)
         trace, blobs, decoded, dec = activation.run_and_decode(wd, pp, seed, v=v, key="activation:abort")
